@@ -5,7 +5,7 @@
 //     data added and removed again before their variant was closed: they stay in the collection
 //     with the sentinel offset usize::MAX and belong to no variant); every datum of every variant
 //     ends at or before max_size; max_type_align is a multiple of its alignment (power-of-two
-//     alignments).           BOUNDED: <= 3 data, <= 2 variants.
+//     alignments).           BOUNDED: <= 3 data, 2 variants (the second a symbolic subset of the first).
 // L4  Vec<DatumId>::remove_data : result = input filtered, order kept.   BOUNDED: list <= 4, removals <= 3.
 // (align_bytes: proved unbounded by Verus in unit layout; a full-domain Kani contract on 64-bit / and % did not finish in 5 min)
 use super::{
@@ -29,8 +29,10 @@ fn pow2_align() -> usize {
 }
 
 /// a definition as the builder can leave it: data 0 and 1 placed (aligned, inside 2^40), datum 2
-/// either placed as well or added-then-removed-before-close (sentinel offset, in no variant)
-fn any_definition() -> (RecordDefinition<NativeDatumDetails>, [bool; 3]) {
+/// either placed as well or added-then-removed-before-close (sentinel offset, in no variant);
+/// two variants: the first lists every placed datum, the second a symbolic subset of them
+/// (data removed by the second variant still belong to the definition)
+fn any_definition(two_variants: bool) -> (RecordDefinition<NativeDatumDetails>, [bool; 3]) {
     let mut data = Vec::with_capacity(3);
     let mut in_variant = [true, true, true];
     let mut list = Vec::with_capacity(3);
@@ -51,17 +53,29 @@ fn any_definition() -> (RecordDefinition<NativeDatumDetails>, [bool; 3]) {
         }
         k += 1;
     }
-    let def = RecordDefinition {
-        datum_definitions: DatumDefinitionCollection { data },
-        variants: vec![RecordVariant { id: RecordVariantId(0), data: list }],
+    let variants = if two_variants {
+        // the second variant keeps a symbolic subset (what it removed still belongs to the definition)
+        let mut second = Vec::with_capacity(3);
+        let mut k = 0;
+        while k < list.len() {
+            let keep: bool = kani::any();
+            if keep {
+                second.push(list[k]);
+            }
+            k += 1;
+        }
+        vec![RecordVariant { id: RecordVariantId(0), data: list }, RecordVariant { id: RecordVariantId(1), data: second }]
+    } else {
+        vec![RecordVariant { id: RecordVariantId(0), data: list }]
     };
+    let def = RecordDefinition { datum_definitions: DatumDefinitionCollection { data }, variants };
     (def, in_variant)
 }
 
 #[kani::proof]
 #[kani::unwind(5)]
 pub fn c13_c02_max_size_never_panics_and_bounds_every_datum() {
-    let (def, in_variant) = any_definition();
+    let (def, in_variant) = any_definition(false);
     let m = def.max_size(); // must not panic (C13)
     let mut k = 0;
     while k < 3 {
@@ -77,7 +91,7 @@ pub fn c13_c02_max_size_never_panics_and_bounds_every_datum() {
 #[kani::proof]
 #[kani::unwind(5)]
 pub fn c13_c02_max_type_align_is_a_multiple_of_every_alignment() {
-    let (def, in_variant) = any_definition();
+    let (def, in_variant) = any_definition(true);
     let a = def.max_type_align(); // must not panic (C13)
     assert!(a > 0);
     let mut k = 0;
@@ -87,6 +101,31 @@ pub fn c13_c02_max_type_align_is_a_multiple_of_every_alignment() {
         }
         k += 1;
     }
+}
+
+/// capacity over several variants of fixed shape (an empty variant first / in the middle, data only
+/// present in an earlier variant), symbolic offsets and sizes
+#[kani::proof]
+#[kani::unwind(5)]
+pub fn c13_c02_max_size_covers_every_variant() {
+    let o0: usize = kani::any();
+    let s0: usize = kani::any();
+    let o1: usize = kani::any();
+    let s1: usize = kani::any();
+    kani::assume(o0 <= (1 << 40) && s0 <= (1 << 20) && o1 <= (1 << 40) && s1 <= (1 << 20));
+    let shape: u8 = kani::any();
+    kani::assume(shape < 3);
+    let (v0, v1, v2): (Vec<DatumId>, Vec<DatumId>, Vec<DatumId>) = match shape {
+        0 => (vec![], vec![DatumId(0), DatumId(1)], vec![DatumId(1)]),
+        1 => (vec![DatumId(0)], vec![], vec![DatumId(1)]),
+        _ => (vec![DatumId(0), DatumId(1)], vec![DatumId(1)], vec![]),
+    };
+    let def = RecordDefinition {
+        datum_definitions: DatumDefinitionCollection { data: vec![datum(0, o0, s0, 1), datum(1, o1, s1, 1)] },
+        variants: vec![RecordVariant { id: RecordVariantId(0), data: v0 }, RecordVariant { id: RecordVariantId(1), data: v1 }, RecordVariant { id: RecordVariantId(2), data: v2 }],
+    };
+    let m = def.max_size();
+    assert!(o0 + s0 <= m && o1 + s1 <= m, "C02: a datum of some variant ends beyond the published capacity");
 }
 
 #[kani::proof]
@@ -145,3 +184,7 @@ pub fn l4_remove_data_is_filter_keeping_order() {
     kani::cover!(n == 4 && o == 2, "reachable: two of four removed");
 }
 
+
+// (Kani harnesses for the two strategies shipped with the generic builder -- retain + any + push over
+// symbolic vectors of <= 3 / <= 2 / <= 2 elements -- did not finish in 10 minutes; those two functions
+// are covered by the bounded-exhaustive request sequences of `bx builder-history` instead.)
